@@ -62,6 +62,12 @@ def gen_orbit_spec(rng, kind, real_eop=False):
                 dur = round(rng.uniform(30, 600), 0)
                 spec["mans"].append({"type": "cont", "off_s": round(t, 0), "dur_s": dur, "dv": [rng.uniform(-1, 1), rng.uniform(-1, 1), 0.0]})
                 t += dur
+        if len(spec["mans"]) >= 2:
+            import random
+
+            r2 = random.Random("cwmans:" + repr(spec["mans"]))
+            if r2.random() < 0.35:
+                spec["mans"] = spec["mans"][::-1]  # the caller's list is not in chronological order (it stays the caller's list, as given)
         return spec
     raise ValueError(kind)
 
